@@ -91,7 +91,7 @@ func faultsFor(fc *FieldCase) []dataFault {
 		return []dataFault{{path: fc.refName(), remove: true, names: p, kind: "unresolvable reference", strict: true}}
 	}
 	switch fc.F.Kind {
-	case KInt, KPInt, KVInt, KUInt, KF64, KUFloat, KBool, KUBool, KPI, KUUint, KUVal:
+	case KInt, KPInt, KVInt, KUInt, KF64, KUFloat, KBool, KUBool, KPI, KUUint, KUVal, KUPrim:
 		add("unparsable string for a number / boolean", p, "zz", p)
 		add("object where a primitive is expected", p, obj, p)
 	case KInt8:
